@@ -63,6 +63,7 @@ Inductive scase :=
 | KRead (script : list msg) (bufs : list N) (total : N) (ended : N) (later : list N)
 | KReply (cap len : N) (ok : bool) (n : N) (aliased : bool)
 | KPipe (writes reads chunks : list N)
+| KWriteFail (sizes : list N) (ns : list N) (failed : bool)
 | KClose (mode : N) (client_closes : bool) (first_ended later_ended : bool).
 
 Definition check_case (c : scase) : bool :=
@@ -78,6 +79,34 @@ Definition check_case (c : scase) : bool :=
       if cap <? len then negb ok
       else ok && (n =? len) &&
            Bool.eqb (place_aliased (dec_place gen_decode_alloc_max cap len)) aliased
+  | KWriteFail sizes ns failed =>
+      (* the Writes before the failing one are complete; the failing one returns an n that some
+         failure of NextWriter (k frames done) or of Close (k+1 frames counted) explains *)
+      let fix go (sizes ns : list N) : bool :=
+        match sizes, ns with
+        | [], [] => true
+        | sz :: sizes', n :: ns' =>
+            match ns' with
+            | [] =>
+                if failed then
+                  let k := N.to_nat (n / gen_side_chunk) in
+                  let by_next := match side_write_f gen_side_chunk (zeros sz) (Some k) FNext with
+                                 | WErrF n' _ _ => n' =? n | _ => false end in
+                  let by_close := match k with
+                                  | O => false
+                                  | S k' => match side_write_f gen_side_chunk (zeros sz) (Some k') FClose with
+                                            | WErrF n' _ _ => n' =? n | _ => false end
+                                  end in
+                  let by_last_close :=
+                    match side_write_f gen_side_chunk (zeros sz) (Some k) FClose with
+                    | WErrF n' _ _ => n' =? n | _ => false end in
+                  by_next || by_close || by_last_close
+                else n =? sz
+            | _ => (n =? sz) && go sizes' ns'
+            end
+        | _, _ => false
+        end in
+      go (firstn (List.length ns) sizes) ns
   | KPipe writes reads chunks =>
       let '(outs, _) := pipe_reads reads (map zeros writes) in
       list_eqb N.eqb (map lenN outs) chunks
